@@ -212,7 +212,7 @@ POSTCONDITION Accepted
 CHECK_DEADLOCK FALSE
 """
 
-DRIVE_CASES = {"quick": 120, "thorough": 2400}
+DRIVE_CASES = {"quick": 120, "thorough": 4000}
 
 
 def drive_cases(binp, wd, prop, seed, first, count, tag):
